@@ -7,6 +7,7 @@
 (*   "good"      a readable file holding a valid FeedMessage               *)
 (*   "goodT"     the same, with a header timestamp shared by all goodT     *)
 (*   "goodR"     the same, serialised with the entities before the header  *)
+(*   "goodL"     a symbolic link to such a file stored elsewhere           *)
 (*   "subdir"    a sub-directory                                           *)
 (*   "vanish"    a file deleted after the listing, before it is read       *)
 (*   "empty"     an empty file (no header: not a FeedMessage)              *)
@@ -22,10 +23,10 @@
 (***************************************************************************)
 EXTENDS VCommon
 
-Kinds == {"good", "goodT", "goodR", "subdir", "vanish", "empty", "truncated", "corrupt", "dangling", "gzip"}
+Kinds == {"good", "goodT", "goodR", "goodL", "subdir", "vanish", "empty", "truncated", "corrupt", "dangling", "gzip"}
 (* "goodT": a good file whose header timestamp is the same for all such files; "goodR": a valid message whose    *)
 (* entities are serialised before its header (protobuf allows any field order)                                   *)
-IsGood(e) == e.kind \in {"good", "goodT", "goodR"}
+IsGood(e) == e.kind \in {"good", "goodT", "goodR", "goodL"}
 
 NameLess(a, b) == a.name < b.name
 
